@@ -230,7 +230,7 @@ class XferPeer:
     async def _ul_send_file(self, ul: Upload, beh: dict, ticket: int):
         if beh.get('f_delay'):
             await asyncio.sleep(beh['f_delay'])
-        if ul.filename in self.muted:
+        if ul.filename in self.muted and not beh.get('f_under_way'):
             return
         try:
             flink = await self.peer.connect_direct(self.client_host.ip, 60000, 'F', ticket=0)
